@@ -133,7 +133,6 @@ pub fn check(prog: &[u8]) -> Result<(), Error> {
             ebpf::LD_IND_DW  => {},
 
             ebpf::LD_DW_IMM  => {
-                store = true;
                 check_load_dw(prog, insn_ptr)?;
                 insn_ptr += 1;
             },
